@@ -48,6 +48,18 @@ pub fn check(c: &Case) -> CheckResult {
     let kind = c.msg.payload_kind();
     let bytes = guard(|| m.as_bytes()).map_err(|p| Violation::from_panic("Message::as_bytes", &p))?;
     let storage = c.msg.storage.is_some();
+    // history independence: whatever was parsed before on this thread — here a damaged copy of the message (argument
+    // count raised, last byte cut off) whose parse fails half-way — must not influence the result
+    if c.suffix.len() % 3 == 1 {
+        let mut damaged = bytes.clone();
+        let s = if storage { 16 } else { 0 };
+        if c.msg.htyp & UEH != 0 && damaged.len() > s + crate::model::std_header_len(c.msg.htyp) + 2 {
+            let noar_at = s + crate::model::std_header_len(c.msg.htyp) + 1;
+            damaged[noar_at] = damaged[noar_at].wrapping_add(1);
+        }
+        let _ = guard(|| dlt_message(&damaged, None, storage).map(|(r, _)| r.len()));
+        let _ = guard(|| dlt_message(&damaged[..damaged.len().saturating_sub(1)], None, storage).map(|(r, _)| r.len()));
+    }
     parse_back(&m, &bytes, &c.suffix, storage, kind)?;
     if c.suffix2 != c.suffix {
         parse_back(&m, &bytes, &c.suffix2, storage, kind)?;
